@@ -627,3 +627,187 @@ TLG = Unit('C10', GAS + 'twolayergas:TwoLayerGas.initialize_profile', _tl_params
                                 Pmix=10 ** rng.uniform(-4, 6), smooth=rng.choice([10, 10, rng.uniform(1, 99)])),
            bounds=[dict(n=3)], short='TwoLayerGas.initialize_profile',
            doc='two-layer abundance: one value per layer, inside the range of the two control values, for every layer count >= 2')
+
+
+# ------------------------------------------------------------------ bounded: molecular masses from the formula parser
+from pyvc.unit import Bounded
+
+
+def _ref_formula(s, table):
+    """independent recursive-descent reading of a chemical formula: element symbols, counts, nested (), [] and {} groups;
+    anything else (charges, isotopes marks) contributes nothing"""
+    pos = 0
+
+    def group(closing):
+        nonlocal pos
+        total = {}
+        while pos < len(s):
+            ch = s[pos]
+            if ch in '([{':
+                pos += 1
+                sub = group({'(': ')', '[': ']', '{': '}'}[ch])
+                n = number()
+                for k, v in sub.items():
+                    total[k] = total.get(k, 0) + v * n
+            elif ch in ')]}':
+                pos += 1
+                return total
+            elif ch.isupper():
+                sym = ch
+                pos += 1
+                if pos < len(s) and s[pos].islower() and (sym + s[pos]) in table:
+                    sym += s[pos]
+                    pos += 1
+                elif pos < len(s) and s[pos].islower():
+                    sym += s[pos]
+                    pos += 1
+                n = number()
+                if sym in table:
+                    total[sym] = total.get(sym, 0) + n
+            else:
+                pos += 1
+        return total
+
+    def number():
+        nonlocal pos
+        j = pos
+        while j < len(s) and s[j].isdigit():
+            j += 1
+        n = int(s[pos:j]) if j > pos else 1
+        pos = j
+        return n
+    return group(None)
+
+
+_FORMULAS = ['H2', 'He', 'H2O', 'CH4', 'CO', 'CO2', 'NH3', 'N2', 'O2', 'O3', 'TiO', 'VO', 'Na', 'K', 'HCN', 'C2H2', 'C2H4', 'C2H6', 'H2S', 'SO2', 'PH3',
+             'SiO', 'FeH', 'AlO', 'MgH', 'CaH', 'CrH', 'NaH', 'KOH', 'HCl', 'HF', 'LiH', 'NO', 'NO2', 'N2O', 'OH', 'CH', 'CN', 'CS', 'SiH4', 'H3+', 'H-',
+             'e-', 'C6H12O6', 'C10H8', 'Ca(OH)2', 'Al2(SO4)3', 'Mg2SiO4', 'Fe(CN)6', 'K4[Fe(CN)6]', '(NH4)2SO4', '((CH3)2N)2', 'Fe2O3', 'MgSiO3',
+             'Al2O3', 'CaTiO3', 'H2SO4', 'C12H26', 'NaCl', 'KCl', 'ZnS', 'MnS', 'Na2S', 'Cr', 'Fe', 'Ni', 'C60', 'H2O2', 'CH3OH', 'CH3CN', 'HC3N']
+
+
+def _b_weights(seed, tier):
+    import random
+    from taurex.util.util import calculate_weight, split_molecule_elements, mass
+    rng = random.Random(seed)
+    forms = list(_FORMULAS)
+    syms = [k for k in mass if k.isalpha()]
+    for _ in range(60 if tier == 'quick' else 2000):              # random well-formed formulas with nested groups
+        def rand(depth=0):
+            parts = []
+            for _ in range(rng.randint(1, 3)):
+                if depth < 2 and rng.random() < 0.25:
+                    op, cl = rng.choice(['()', '[]', '{}'])
+                    parts.append(op + rand(depth + 1) + cl + (str(rng.randint(2, 12)) if rng.random() < 0.7 else ''))
+                else:
+                    parts.append(rng.choice(syms) + (str(rng.randint(2, 24)) if rng.random() < 0.6 else ''))
+            return ''.join(parts)
+        forms.append(rand())
+    fails, samples = [], []
+    for f in forms:
+        want = _ref_formula(f, mass)
+        ww = sum(mass[k] * v for k, v in want.items())
+        try:
+            got = split_molecule_elements(f)
+            gw = calculate_weight(f)
+        except Exception as e:
+            fails.append({'clause': 'no_exception', 'inputs': {'formula': f}, 'observed': repr(e)})
+            continue
+        if {k: v for k, v in got.items() if v} != {k: v for k, v in want.items() if v} or abs(gw - ww) > 1e-9 * max(1.0, ww):
+            fails.append({'clause': 'element_counts_and_weight', 'inputs': {'formula': f}, 'observed': {'counts': got, 'weight': gw},
+                          'expected': {'counts': want, 'weight': ww}})
+        if len(samples) < 3:
+            samples.append({'formula': f, 'weight': gw})
+    return {'cases': len(forms), 'failures': fails, 'samples': samples,
+            'bound': '%d formulas: %d from the literature incl. ions and nested groups, the rest random well-formed formulas over the mass table' % (len(forms), len(_FORMULAS))}
+
+
+Bounded('C10', 'molecular_weight_of_formulas', _b_weights,
+        doc='split_molecule_elements / calculate_weight (regex tokeniser, recursion on bracket groups): outside the verified subset; '
+            'run-time contract against an independent formula reader')
+
+
+# ------------------------------------------------------------------ Chemistry.__init__: which molecules can absorb follows the opacity mode
+from pyvc.engine import AbsObj
+from pyvc.core import PyList
+
+_XS_MOLS, _KT_MOLS = ['H2O', 'CH4', 'CO2'], ['H2O', 'NH3']
+
+
+def _ch_params(c):
+    return dict(self=ObjSpec('Chemistry', mu_profile='<unset>', _avail_active='<unset>'), name='chem')
+
+
+def _h_gc_new(ex, st, args, kwargs, node):
+    return AbsObj('GlobalCache', 0, {})
+
+
+def _h_gc_get(ex, st, o, args, kwargs, node):
+    key = args[0]
+    st.trace.append(('ev', ('GlobalCache.get', key)))
+    fx = ex.c.fixed
+    if key == 'opacity_method':
+        return fx['method']
+    if key == 'deactive_molecules':
+        return None if fx['deactive'] is None else st.alloc(ex.c, PyList(list(fx['deactive'])))
+    raise KeyError(key)
+
+
+def _h_cache_new(kind):
+    return lambda ex, st, args, kwargs, node: AbsObj(kind, 0, {})
+
+
+def _h_find(kind, mols):
+    def h(ex, st, o, args, kwargs, node):
+        st.trace.append(('ev', ('find_list_of_molecules', kind)))
+        return st.alloc(ex.c, PyList(list(mols)))
+    return h
+
+
+def _ch_post(c, v0, v1, r):
+    fx = c.fixed if c.mode != 'conc' else c.values
+    src = _KT_MOLS if fx['method'] == 'ktables' else _XS_MOLS
+    want = [m for m in src if fx['deactive'] is None or m not in fx['deactive']]
+    if c.mode == 'conc':
+        got, asked = v1.self['_avail_active'], [e[1] for e in (c.trace or []) if e[0] == 'find_list_of_molecules']
+    else:
+        ref = v1.self.ref('_avail_active')
+        cell = c.raw['state'].heap.get(ref.id) if hasattr(ref, 'id') else None
+        got = list(cell.items) if isinstance(cell, PyList) else None
+        asked = [e[1] for e in (c.trace or []) if e[0] == 'find_list_of_molecules']
+    return {'asks_the_cache_of_the_current_opacity_mode_once': asked == (['KTableCache'] if fx['method'] == 'ktables' else ['OpacityCache']),
+            'available_minus_deactivated_in_order': got == want}
+
+
+def _ch_native(c, p):
+    import taurex.data.profiles.chemistry.chemistry as mod
+    fx = c.values
+    trace = []
+
+    class _GC:
+        def __getitem__(self, k):
+            return {'opacity_method': fx['method'], 'deactive_molecules': None if fx['deactive'] is None else list(fx['deactive'])}[k]
+
+    def cache(kind, mols):
+        class _C:
+            def find_list_of_molecules(self):
+                trace.append(('find_list_of_molecules', kind))
+                return list(mols)
+        return _C
+    saved = (mod.GlobalCache, mod.OpacityCache, mod.KTableCache)
+    mod.GlobalCache, mod.OpacityCache, mod.KTableCache = _GC, cache('OpacityCache', _XS_MOLS), cache('KTableCache', _KT_MOLS)
+    try:
+        o = mod.Chemistry('chem')
+    finally:
+        mod.GlobalCache, mod.OpacityCache, mod.KTableCache = saved
+    return None, dict(p, self=dict(p['self'], _avail_active=list(o._avail_active)), __trace__=trace)
+
+
+_CH_CASES = [dict(method=m, deactive=d) for m in ('ktables', 'xsec', None) for d in (None, (), ('H2O',), ('CH4', 'NH3'))]
+CHI = Unit(['C10', 'C20'], 'taurex.data.profiles.chemistry.chemistry:Chemistry.__init__', _ch_params, post=_ch_post, cases=_CH_CASES, bounds=[{}],
+           abstract={'new:GlobalCache': _h_gc_new, 'GlobalCache.__getitem__': _h_gc_get, 'new:OpacityCache': _h_cache_new('OpacityCache'),
+                     'new:KTableCache': _h_cache_new('KTableCache'), 'OpacityCache.find_list_of_molecules': _h_find('OpacityCache', _XS_MOLS),
+                     'KTableCache.find_list_of_molecules': _h_find('KTableCache', _KT_MOLS), 'call:__init__': lambda ex, st, args, kwargs, node: None},
+           frame_attrs=[('self', 'mu_profile'), ('self', '_avail_active')], native=_ch_native, gen=lambda rng: dict(rng.choice(_CH_CASES)),
+           short='Chemistry.__init__',
+           doc='the molecules that count as absorbing: those of the k-table cache in k-table mode, of the cross-section cache otherwise, '
+               'minus the deactivated ones, order kept (caches abstract; enumerated modes and deactivation lists)')
